@@ -80,6 +80,7 @@ func (rt *Runtime) ExecCase(w *World, c *Case) (out CaseOutcome) {
 	o := BuildOpts{Format: c.Format, Config: cfgText, Fault: c.Sink, NoSign: c.Sign == "none"}
 	if c.Sign == "callback" {
 		s := NewSimSigner(signerKind(w, c.Format, cfgText), c.Signer)
+		s.Binary = c.SignBinary
 		if err := s.Prepare(); err != nil {
 			out.SetupErr = fmt.Errorf("signer: %w", err)
 			return out
